@@ -32,7 +32,7 @@ class Ctx:
         """Fail closed: the rule could not be decided (anchor missing / shape not recognised)."""
         self.fail(rule, key, "cannot decide: " + msg, loc, kind="cannot-decide")
 
-    def check(self, cond, rule, key, okdetail, failmsg, loc=None):
+    def check(self, cond, rule, key, okdetail, failmsg="", loc=None):
         if cond:
             self.ok(rule, key, okdetail, loc)
         else:
